@@ -110,6 +110,8 @@ def oracle(seed, tier):
     for obj, h in _all_histories(seed, tier, 'defer-oracle'):
         q = _real()
         res.evaluations += 1
+        if res.enough():
+            break
         written = 0
         delivered = set()
         bad = None
@@ -199,6 +201,8 @@ def manager_oracle(seed, tier, prop='C16'):
         mode = ['uniform', 'sticky', 'pct', 'stall'][i % 4]
         out = manager_run(rng.randrange(1 << 30), nthreads, order, io_queue, mode)
         res.evaluations += 1
+        if res.enough():
+            break
         wit = {'object_len': len(data), 'chunks_in_arrival_order': [(o, len(d)) for o, d in order], 'request_threads': nthreads,
                'max_io_queue_size': io_queue, 'mode': mode, 'schedule': out['choices'][:300]}
         res.nontrivial.add((len(chunks), nthreads, io_queue, tuple(o for o, _ in order) != tuple(sorted(o for o, _ in order))))
